@@ -758,18 +758,18 @@ fn check_type(out: &mut Vec<Viol>, st: &ResolvedSemanticState, ix: &FileIndex, d
                 match final_expr(&a.block) {
                     Some(syn::Expr::Cast(c)) => {
                         if norm(&c.expr) != src {
-                            v(out, &["C06"], format!("{name}::vftable: returns `{}`, expected `{src}` reinterpreted", norm(&c.expr)));
+                            v(out, &["C06", "C04"], format!("{name}::vftable: returns `{}`, expected `{src}` reinterpreted", norm(&c.expr)));
                         }
                         if !render_type(&vt.type_).map(|e| type_is(&c.ty, &e)).unwrap_or(false) {
-                            v(out, &["C06"], format!("{name}::vftable: cast to `{}`", norm(&c.ty)));
+                            v(out, &["C06", "C04"], format!("{name}::vftable: cast to `{}`", norm(&c.ty)));
                         }
                     }
                     Some(e) => {
                         if norm(e) != src {
-                            v(out, &["C06"], format!("{name}::vftable: returns `{}`, expected `{src}`", norm(e)));
+                            v(out, &["C06", "C04"], format!("{name}::vftable: returns `{}`, expected `{src}`", norm(e)));
                         }
                     }
-                    None => v(out, &["C06"], format!("{name}::vftable: empty body")),
+                    None => v(out, &["C06", "C04"], format!("{name}::vftable: empty body")),
                 }
             }
         }
@@ -1226,17 +1226,25 @@ pub fn emit_and_check(st: &ResolvedSemanticState, sources: &[(&str, String)], sc
         }
         let p = module_file(scratch, key);
         expected_files.insert(p.clone());
+        let keystr = key.iter().map(|s| s.as_str()).collect::<Vec<_>>().join("::");
+        let gm = sources.iter().find(|(k, _)| *k == keystr).and_then(|(_, src)| pyxis::parser::parse_str(src).ok());
         let Ok(text) = std::fs::read_to_string(&p) else {
             v(&mut viols, &["C14"], format!("no output file for module `{key}` at {}", p.strip_prefix(scratch).unwrap_or(&p).display()));
+            // what the module declares is then not emitted at all
+            if let Some(gm) = &gm {
+                if !gm.extern_values.is_empty() {
+                    v(&mut viols, &["C15"], format!("module `{key}`: no accessor for its extern value(s) - the module's file was not written"));
+                }
+                if !gm.definitions.is_empty() {
+                    v(&mut viols, &["C01", "C02", "C04", "C05", "C08", "C17"], format!("module `{key}`: none of its definitions is emitted - the module's file was not written"));
+                }
+            }
             continue;
         };
-        let keystr = key.iter().map(|s| s.as_str()).collect::<Vec<_>>().join("::");
-        if let Some((_, src)) = sources.iter().find(|(k, _)| *k == keystr) {
-            if let Ok(gm) = pyxis::parser::parse_str(src) {
-                for mut x in check_emitted(st, key, module, &gm, &text) {
-                    x.what = format!("[{keystr}] {}", x.what);
-                    viols.push(x);
-                }
+        if let Some(gm) = &gm {
+            for mut x in check_emitted(st, key, module, gm, &text) {
+                x.what = format!("[{keystr}] {}", x.what);
+                viols.push(x);
             }
         }
         EMITTED_FILES.fetch_add(1, std::sync::atomic::Ordering::Relaxed);
